@@ -422,7 +422,15 @@ def parse_op(op):
 
 
 def norm_msg(m):
-    return re.sub(r'\d+', 'N', m or '')[:80]
+    return re.sub(r'\d+', 'N', (m or '').split(' @ ')[0])[:80]
+
+
+def panic_at(m):
+    """file (without line) where a logged panic was raised, relative to the crate"""
+    loc = (m or '').split(' @ ')[1] if ' @ ' in (m or '') else ''
+    loc = loc.rsplit(':', 1)[0]
+    i = loc.find('wow_world_messages/')
+    return loc[i:] if i >= 0 else loc
 
 
 def judge(k, seq, ev):
@@ -458,16 +466,18 @@ def judge(k, seq, ev):
         f = k.fields.get(name[4:] if code in ('s', 'b') else name) if code in ('s', 'b', 'g') else None
         if 'panic' in e:
             msg = norm_msg(e['panic'])
+            at = panic_at(e['panic'])
             if code == 'D':
                 bit = int(name)
-                bad({'check': 'is_bit_dirty', 'reason': 'panic', 'beyond_blocks': bit // 32 >= m.nblocks, 'msg': msg}, {'step': i, 'op': op, 'blocks': m.nblocks})
+                bad({'check': 'is_bit_dirty', 'reason': 'panic', 'beyond_blocks': bit // 32 >= m.nblocks, 'msg': msg, 'panic_at': at}, {'step': i, 'op': op, 'blocks': m.nblocks})
             elif code == 'g' and f is not None:
                 idx, _ = k.parse_args(f, argt, with_value=False)
                 fw = k.field_words(f, idx)
                 npres = sum(1 for w in fw if w in m.present)
-                bad({'check': 'get', 'reason': 'panic', 'field': f.name, 'partial': 0 < npres < len(fw), 'msg': msg}, {'step': i, 'op': op, 'present_words': [w for w in fw if w in m.present], 'field_words': fw})
+                bad({'check': 'get', 'reason': 'panic', 'field': f.name, 'shape': f.shape, 'partial': 0 < npres < len(fw), 'msg': msg, 'panic_at': at},
+                    {'step': i, 'op': op, 'present_words': [w for w in fw if w in m.present], 'field_words': fw, 'panic': e['panic']})
             else:
-                bad({'check': 'panic', 'op': code, 'field': f.name if f else '', 'msg': msg}, {'step': i, 'op': op})
+                bad({'check': 'panic', 'op': code, 'field': f.name if f else '', 'msg': msg, 'panic_at': at}, {'step': i, 'op': op, 'panic': e['panic']})
             break
         if code in ('s', 'b'):
             idx, vals = k.parse_args(f, argt)
@@ -515,6 +525,11 @@ def judge(k, seq, ev):
                     bad({'check': 'is_bit_dirty', 'reason': 'value', 'expected': exp}, {'step': i, 'op': op, 'observed': e.get('r')})
                     break
                 st['bit_' + str(exp).lower()] += 1
+            elif bit // 32 >= m.nblocks:
+                if e.get('r') is not False:
+                    bad({'check': 'is_bit_dirty', 'reason': 'value', 'expected': False, 'beyond_blocks': True}, {'step': i, 'op': op, 'observed': e.get('r')})
+                    break
+                st['bit_beyond_blocks_false'] += 1
             else:
                 st['bit_absent_field_not_judged'] += 1
         elif code in ('W', 'X'):
@@ -815,8 +830,14 @@ def edge_sequences(k):
     return out
 
 
+def overlapping_rows(k):
+    """pairs of rows of the published table (of this mask kind) that claim the same word"""
+    rows = sorted(k.rows, key=lambda r: r[1])
+    return [(a, b) for i, a in enumerate(rows) for b in rows[i + 1:] if b[1] < a[1] + a[2]]
+
+
 def alias_sequences(k):
-    """for every pair of table rows that claim the same word: set A, set B, read A"""
+    """fields whose table rows overlap share storage: set A, set B, read both, write; and reading A when only B was set"""
     rng = random.Random(13)
     fs = list(k.fields.values())
     out = []
@@ -841,63 +862,41 @@ def alias_sequences(k):
             for (x, ix, y, iy) in ((a, pair[0], b, pair[1]), (b, pair[1], a, pair[0])):
                 if 'get' not in x.acc:
                     continue
-                v1 = k.gen_vals(x, rng, tagged=True)
-                v2 = k.gen_vals(y, rng)
-                out.append({'id': seq_id('alias', k, n), 'group': 'alias', 'start': 'new', 'mode': 'overwrite',
-                            'ops': [set_op(k, x, ix, v1), get_op(k, x, ix), set_op(k, y, iy, v2), get_op(k, x, ix)],
-                            'a': x.name, 'b': y.name, 'a_index': ix, 'a_vals': v1})
+                gy = [get_op(k, y, iy)] if 'get' in y.acc else []
+                out.append({'id': seq_id('alias', k, n), 'group': 'alias', 'start': 'new',
+                            'ops': [set_op(k, x, ix, k.gen_vals(x, rng, tagged=True)), get_op(k, x, ix), set_op(k, y, iy, k.gen_vals(y, rng)),
+                                    get_op(k, x, ix)] + gy + ['W:v', 'X:c', get_op(k, x, ix)] + gy,
+                            'pair': (x.name, y.name)})
                 n += 1
-                # field x was never set: reading it after setting the other field must give nothing
-                jx = next((j for j in (x.index_values or [None]) if set(k.field_words(x, j)) & set(k.field_words(y, iy))), ix)
-                out.append({'id': seq_id('alias', k, n), 'group': 'alias', 'start': 'new', 'mode': 'phantom',
-                            'ops': [set_op(k, y, iy, v2), get_op(k, x, jx)], 'a': x.name, 'b': y.name, 'a_index': jx, 'a_vals': v1})
+                out.append({'id': seq_id('alias', k, n), 'group': 'alias', 'start': 'new',
+                            'ops': [set_op(k, y, iy, k.gen_vals(y, rng)), get_op(k, x, ix)] + gy + ['W:v'], 'pair': (x.name, y.name)})
                 n += 1
     return out
 
 
-def judge_alias(k, seq, ev):
-    """'each getter returns the value last set for its field': field-wise expectation, not word-wise"""
-    if ev is None or ev.get('result') != 'ok':
-        return None
-    log = ev['log']
-    a = k.fields[seq['a']]
-    base = {'exp': k.exp, 'kind': k.kind, 'group': 'alias', 'check': 'alias', 'field': seq['a'], 'other': seq['b'],
-            'pair': '+'.join(sorted([seq['a'], seq['b']]))}
-    det = {'ops': seq['ops'], 'rows': [list(a.row), list(k.fields[seq['b']].row)], 'log': log}
-    last = log[-1] if log else {}
-    if len(log) < len(seq['ops']) or 'panic' in last:
-        return [(dict(base, reason='panic', mode=seq['mode']), det)]
-    if seq['mode'] == 'phantom':
-        if last.get('r') is not None:
-            return [(dict(base, reason='phantom', mode='phantom'), dict(det, expected=None, observed=last.get('r')))]
-        return []
-    exp = k.show(a, seq['a_index'], k.words(a, seq['a_index'], seq['a_vals']))
-    first = log[1].get('r')
-    if a.shape == 'TWO_SHORT' and first == exp[::-1]:
-        exp = exp[::-1]     # the swapped-halves finding is reported elsewhere
-    if last.get('r') != exp:
-        return [(dict(base, reason='overwritten', mode='overwrite'), dict(det, expected=exp, after_own_set=first, after_other_set=last.get('r')))]
-    return []
-
-
 def static_table_checks(k):
-    """accessor shape against the row's type and width (no execution needed)"""
-    out = []
+    """accessor shape against the row's type and width (no execution needed).
+    -> (violations, array rows reachable only at element 0)"""
+    out, first_only = [], []
     for f in k.fields.values():
         name, off, size, ty = f.row
         if ty not in COMPAT[f.shape]:
             out.append(({'exp': k.exp, 'kind': k.kind, 'group': 'static', 'check': 'table_type', 'field': f.name, 'ftype': ty, 'shape': f.shape},
                         {'row': list(f.row), 'params': f.vparams}))
-        n = len(f.index_values) if f.iparams else 1
-        reach = f.stride * (n - 1) + f.elem_words if f.iparams else f.elem_words
-        if f.iparams and (f.row[2] % n or f.stride < f.elem_words or max(f.index_values) * f.stride + f.elem_words > size):
-            out.append(({'exp': k.exp, 'kind': k.kind, 'group': 'static', 'check': 'table_width', 'reason': 'index_range', 'field': f.name, 'ftype': ty},
-                        {'row': list(f.row), 'index_values': len(f.index_values), 'element_words': f.elem_words, 'stride': f.stride}))
-        elif not f.iparams and reach != size:
-            out.append(({'exp': k.exp, 'kind': k.kind, 'group': 'static', 'check': 'table_width',
-                         'reason': 'first_element_only' if size % f.elem_words == 0 and size > reach else 'width', 'field': f.name, 'ftype': ty},
-                        {'row': list(f.row), 'accessor_words': reach, 'params': f.vparams}))
-    return out
+        if f.iparams:
+            n = len(f.index_values)
+            if size % n or f.stride < f.elem_words or max(f.index_values) * f.stride + f.elem_words > size:
+                out.append(({'exp': k.exp, 'kind': k.kind, 'group': 'static', 'check': 'table_width', 'reason': 'index_range', 'field': f.name, 'ftype': ty},
+                            {'row': list(f.row), 'index_values': n, 'element_words': f.elem_words, 'stride': f.stride}))
+        elif size == f.elem_words:
+            pass
+        elif size % f.elem_words == 0 and size > f.elem_words:
+            # element 0 of an array row, addressed at the row's offset with the element's width: consistent with the table
+            first_only.append(f'{name} ({size // f.elem_words} x {ty})')
+        else:
+            out.append(({'exp': k.exp, 'kind': k.kind, 'group': 'static', 'check': 'table_width', 'reason': 'width', 'field': f.name, 'ftype': ty},
+                        {'row': list(f.row), 'accessor_words': f.elem_words, 'params': f.vparams}))
+    return out, first_only
 
 
 # ------------------------------------------------------------------------------------------------
@@ -919,6 +918,8 @@ def shape_key(seq):
         return (seq['start'], len(codes) // 25, tuple(codes[:6]))
     if seq['group'] == 'table':
         return (seq['field'], seq['index'], seq['form'])
+    if seq['group'] == 'alias':
+        return tuple(seq['pair']) + (len(seq['ops']),)
     return (seq['id'].rsplit('.', 1)[-1],)
 
 
@@ -941,11 +942,7 @@ def run_batch(task):
     res = {'ok': [], 'viol': [], 'stats': collections.Counter(), 'infra': [], 'samples': []}
     for s in seqs:
         e = ev.get(s['id'])
-        if s['group'] == 'alias':
-            r = judge_alias(k, s, e)
-            st = collections.Counter({'sequences': 1, 'steps': len(s['ops'])})
-        else:
-            r, st = judge(k, s, e)
+        r, st = judge(k, s, e)
         if r is None:
             res['infra'].append(f"{s['id']}: no event")
             continue
@@ -1021,19 +1018,20 @@ def run(tier, replay=None):
                        'operation sequences (typed setters in builder and &mut form, getters, dirty_reset, mark_fully_dirty, '
                        'has_any_dirty_fields, is_bit_dirty, write through SMSG_UPDATE_OBJECT + read back) executed on the real masks and '
                        'on a three-map model fed from the published table: every accessor once with tagged values (field table), '
-                       'exhaustive sequences over a representative field set, seeded random sequences over all fields, aliasing pairs, '
+                       'exhaustive sequences over a representative field set, seeded random sequences over all fields, pairs of fields whose table rows overlap, '
                        'edge cases; distinct = (expansion, kind, group, op-sequence shape) judged without discrepancy')
     binary = common.cargo_build('umask_driver')
     ctx = build_context(binary)
     _G['ctx'], _G['binary'] = ctx, binary
     tasks = []
     static = []
+    first_only, overlaps = {}, {}
     if replay:
         rp = json.load(open(replay))
         s = rp['seq']
         exp, kind = s['id'].split('.')[1:3]
         if rp.get('observation', {}).get('group') == 'static':
-            static = [x for x in static_table_checks(ctx[exp].kinds[kind]) if x[0].get('field') == rp['observation'].get('field')]
+            static = [x for x in static_table_checks(ctx[exp].kinds[kind])[0] if x[0].get('field') == rp['observation'].get('field')]
         else:
             tasks.append((exp, kind, ('seqs', [s]), 'replay'))
         _G['workers'] = 1
@@ -1048,7 +1046,13 @@ def run(tier, replay=None):
         big = []
         for (e, kd) in combos:
             k = ctx[e].kinds[kd]
-            static += static_table_checks(k)
+            sv, fo = static_table_checks(k)
+            static += sv
+            if fo:
+                first_only[f'{e}.{kd}'] = fo
+            ov = overlapping_rows(k)
+            if ov:
+                overlaps[f'{e}.{kd}'] = [f'{a[0]} [{a[1]}, {a[1] + a[2]}) / {b[0]} [{b[1]}, {b[1] + b[2]})' for a, b in ov]
             tasks.append((e, kd, ('fixed',), f'{e}.{kd}.fixed'))
             rep, alpha, _ = exhaustive_alphabet(k)
             reps[f'{e}.{kd}'] = {tag: f.name + ('' if idx is None else f'[{idx}]') + f'@{k.base(f, idx)}' for tag, (f, idx) in rep.items()}
@@ -1064,6 +1068,13 @@ def run(tier, replay=None):
                 tasks.append((e, kd, ('rnd', lo, min(per, lo + step)), f'{e}.{kd}.r{lo}'))
         tasks = big + tasks          # longest tasks first
         chk.extra['representative_fields'] = reps
+        chk.extra['array_rows_reachable_only_at_element_0'] = {
+            'note': 'API limitation, not judged: the accessor addresses element 0 at the row offset with the element width and type',
+            'count': sum(len(v) for v in first_only.values()), 'per_kind': first_only}
+        chk.extra['rows_that_overlap_in_the_published_table'] = {
+            'note': 'observation about update-mask.md, not a finding: the accessors agree with the table; overlapping fields share storage in the '
+                    'word-based model (set A, set B, read A is judged against the shared words)',
+            'per_kind': overlaps}
         chk.extra['exhaustive_depth'] = {'new': depth, 'builder': bdepth}
         chk.extra['random_sequences_per_kind'] = per
     stats = collections.Counter()
@@ -1086,10 +1097,11 @@ def run(tier, replay=None):
         for obs, rep in r['viol']:
             chk.count(chk.violation(obs, dict(rep, driver_cmd='python3 check.py C13 --replay <this file>')))
     for obs, det in static:
+        chk.count('static_checks_failed')
         exp, kind = obs['exp'], obs['kind']
         chk.count(chk.violation(obs, {'seq': {'id': f'static.{exp}.{kind}.0'}, 'detail': det,
                                       'driver_cmd': 'python3 check.py C13 --replay <this file>'}))
-    if replay and not chk.violations and not chk.known_hits:
+    if replay and not chk.violations:
         # a single re-judged case: the verdict needs the sequence and its step count as the two distinct facts
         chk.ok(('replay', rp['seq']['id']))
         chk.ok(('replay-steps', stats.get('steps', 0)))
@@ -1120,6 +1132,9 @@ def run(tier, replay=None):
         'new mask is the OR of 1 << ObjectType over that chain (update-mask.md example: 16|8|1 for a player)',
         'argument order of multi-part setters is little endian like the wowm struct layouts: first u8/u16 = lowest byte/half of the word',
         'constant (padding) members of update-mask structs are not transmitted; a struct getter is only judged when all or none of its words are present',
-        'is_bit_dirty of a field that is not present is not judged (only that it does not panic); a written form without the type field need not decode',
+        'is_bit_dirty of a field that is not present is judged only beyond the allocated blocks (false) and otherwise only not to panic; '
+        'a written form without the type field need not decode',
+        'the model is word based: fields whose published rows overlap share storage, a getter is judged against the words the model holds; '
+        'an array row (size = n x element width) is addressed by its accessor at element 0 only',
         'element stride of struct arrays = published size / number of index values the API accepts']
     return chk.finish()
